@@ -212,6 +212,9 @@ STAGES['C08'] = {
                                    HDRS=hdrsets(SHDR, ["plain", "long", "multiline", "lffold"]))),
         ('descriptions-names', 'Smime', scfg(MAXP='2', MAXE='1', MAXA='1', ENCS='{"qp", "b64"}', SMIMES=KEYS2,
                                               PDESCS='{"", "plain", "long", "utf8"}', FDESCS='{"", "long", "utf8"}', FNAMES='{"", "long", "utf8"}')),
+        # the message grows between two signed renders: the signature part of the earlier render must not survive
+        ('grows-between-renders', 'Smime', scfg(MAXP='2', MAXE='1', MAXA='1', ENCS='{"qp"}', SMIMES=KEYS2B,
+                                                 OPSEQS='{<<"WriteTo", "AddAlt", "WriteTo">>, <<"Reader", "AddAlt", "File", "AddAlt", "WriteTo">>, <<"AddAlt", "WriteTo", "WriteTo">>}')),
         ('histories', 'Smime', scfg(MAXP='2', MAXE='1', MAXA='1', ENCS='{"qp"}', SMIMES=KEYS2B,
                                      OPSEQS='{<<a, b, c>> : a \\in {"WriteTo", "Reader", "FailSinkLate", "SkipMw"}, b \\in {"Write", "File", "FailSinkMid", "UpdateReader", "SkipMw", "Sendmail"}, c \\in {"WriteTo", "TempFile", "SkipMw"}}')),
     ],
